@@ -22,15 +22,16 @@ fn iso3(t: &Value) -> Iso3 {
     Iso3::from_parts(Translation3::new(tr[0] as f64, tr[1] as f64, tr[2] as f64), rot)
 }
 
-fn flatten(q: &mut Q, verts: &[Point3], faces: &[[u32; 3]], t: &Iso3) -> Value {
-    let moved: Vec<Point3> = verts.iter().map(|p| t * p).collect();
+fn flatten(q: &mut Q, verts: &[Point3], faces: &[[u32; 3]], t: &Iso3, s: f64) -> Value {
+    // the posed disk scaled by the power of two s; uv is reported in lattice units
+    let moved: Vec<Point3> = verts.iter().map(|p| Point3::from((t * p).coords * s)).collect();
     let mesh = Mesh::new(moved, faces.to_vec(), false);
     let edges = match mesh.calc_edges() { Ok(e) => e, Err(_) => return json!({"ok": false, "stage": "edges", "uv": []}) };
     match edges.boundary_first_flatten() {
         Err(_) => json!({"ok": false, "stage": "flatten", "uv": []}),
         Ok(uv) => {
             let mut qq = Q::new();
-            let v: Vec<Vec<i64>> = uv.iter().map(|p| vec![qq.q(p.x, QU), qq.q(p.y, QU)]).collect();
+            let v: Vec<Vec<i64>> = uv.iter().map(|p| vec![qq.q(p.x / s, QU), qq.q(p.y / s, QU)]).collect();
             if !qq.finite { q.finite = false; }
             json!({"ok": true, "stage": "done", "uv": v, "finite": qq.finite})
         }
@@ -47,8 +48,9 @@ pub fn exec(rec: &Value, _st: &mut State) -> Value {
     match op {
         "flatten" => {
             let t2 = iso3(&rec["T2"]);
-            let a = flatten(&mut q, &verts, &faces, &t);
-            let b = flatten(&mut q, &verts, &faces, &t2);
+            let s = (2.0f64).powi(gi_or(rec, "sc", 0) as i32);
+            let a = flatten(&mut q, &verts, &faces, &t, s);
+            let b = flatten(&mut q, &verts, &faces, &t2, s);
             json!({"a": a, "b": b})
         }
         "uv" => {
@@ -65,6 +67,7 @@ pub fn exec(rec: &Value, _st: &mut State) -> Value {
                     let w = [bc[0] as f64 / 6.0, bc[1] as f64 / 6.0, bc[2] as f64 / 6.0];
                     let uv = Point2::from(uvv[f[0] as usize].coords * w[0] + uvv[f[1] as usize].coords * w[1] + uvv[f[2] as usize].coords * w[2]);
                     let p3 = mesh.uv_to_3d(&uv);
+                    let mut back_t = json!({"some": false, "uv": [0,0], "depth": 0});
                     let (to3, back) = match p3 {
                         None => (json!({"some": false, "p": [0,0,0], "n": [0,0,0]}), json!({"some": false, "uv": [0,0], "depth": 0})),
                         Some(sp) => {
@@ -72,12 +75,19 @@ pub fn exec(rec: &Value, _st: &mut State) -> Value {
                                 None => json!({"some": false, "uv": [0,0], "depth": 0}),
                                 Some((u, d)) => json!({"some": true, "uv": [q.q(u.x, QU), q.q(u.y, QU)], "depth": q.q(d, QU)}),
                             };
+                            // the same point given in the lattice frame together with the pose as `transform`
+                            let pl = t.inverse() * sp.point;
+                            let bt = match mesh.uv_with_tol(&pl, 0.5, std::f64::consts::FRAC_PI_4, Some(&t)) {
+                                None => json!({"some": false, "uv": [0,0], "depth": 0}),
+                                Some((u, d)) => json!({"some": true, "uv": [q.q(u.x, QU), q.q(u.y, QU)], "depth": q.q(d, QU)}),
+                            };
+                            back_t = bt;
                             (json!({"some": true, "p": [q.q(sp.point.x, QX), q.q(sp.point.y, QX), q.q(sp.point.z, QX)],
                                     "n": [q.q(sp.normal.x, QN), q.q(sp.normal.y, QN), q.q(sp.normal.z, QN)]}), b)
                         }
                     };
                     // a point lifted off the surface along the normal by 1/4: still maps back to the same uv with that depth
-                    probes.push(json!({"face": k, "bc": bc, "uv6": [ (uv.x * 6.0).round() as i64, (uv.y * 6.0).round() as i64 ], "to3": to3, "back": back}));
+                    probes.push(json!({"face": k, "bc": bc, "uv6": [ (uv.x * 6.0).round() as i64, (uv.y * 6.0).round() as i64 ], "to3": to3, "back": back, "back_t": back_t}));
                 }
             }
             json!({"ok": true, "probes": probes, "finite": q.finite})
